@@ -360,7 +360,7 @@ Proof.
       assert (Hlen : (length m' < length m)%nat) by (rewrite B1, app_length; cbn [length]; lia).
       destruct (IHk (length m') ltac:(lia) m' eq_refl (pfx ++ l :: mid') f kb3 _ auth2 (nlen (body (rev m)) + 1)
                   ltac:(rewrite En, B1, <- app_assoc; reflexivity) ltac:(lia) B4) as (z' & I1 & I2 & I3).
-      exists z'. clear IHk Hno Hb Hm A Hlen En Hf Hk.
+      exists z'. clear IHk Hno Hb Hm Hlen En Hf Hk.
       destruct m as [|l0 p0]; [discriminate B1|]. cbn [app] in B1. injection B1 as -> ->. rewrite Wk.
       split; [exact I1|]. split; [exact I2|].
       intros X. destruct (I3 X) as (zz & y & Ey & Ez & Hy). exists ((l :: mid') ++ zz), y.
@@ -398,7 +398,8 @@ Proof. intros. destruct m; reflexivity. Qed.
 Lemma v1_fa_walk : forall m fuel wild s, name_ok m -> (length (pack m) < fuel)%nat ->
   find_ans_v1 b st1 fuel (pack m) ctrl qname qtype L wild s = Val (walk_fa m wild s).
 Proof.
-  induction m as [|l p IH]; intros fuel wild s Hm Hf; (destruct fuel as [|fuel]; [lia|]); cbn [find_ans_v1]; rewrite walk_fa_eq; cbv zeta; fold (scan_fa [] wild s); fold (scan_fa (l :: p) wild s).
+  induction m as [|l p IH]; intros fuel wild s Hm Hf; (destruct fuel as [|fuel]; [lia|]); cbn [find_ans_v1]; rewrite walk_fa_eq; cbv zeta;
+    [fold (scan_fa [] wild s) | fold (scan_fa (l :: p) wild s)].
   - destruct (snd (scan_fa [] wild s)); [reflexivity|].
     destruct (bytes_eqb (pack []) ctrl); reflexivity.
   - destruct (snd (scan_fa (l :: p) wild s)); [reflexivity|].
@@ -485,7 +486,7 @@ Proof.
   - assert (Hok : name_ok (l :: mid ++ m') /\ name_ok cz).
     { pose proof Hn as H1. rewrite En in H1. apply name_ok_app in H1 as [_ H1].
       pose proof Hn as H2. rewrite Hcz in H2. apply name_ok_app in H2 as [_ H2]. split; assumption. }
-    destruct Hok as [Hx Hc]. inversion Hx as [|? ? Hl Hx']; subst l0 l1. unfold lab_ok in Hl.
+    destruct Hok as [Hx Hc]. inversion Hx as [|? ? Hl Hx' Heq]. unfold lab_ok in Hl.
     rewrite (IH m' (pfx ++ [l])) by (rewrite En, <- app_assoc; reflexivity).
     assert (Lx : nlen (pack (l :: mid ++ m')) = 1 + nlen l + nlen (pack (mid ++ m'))).
     { rewrite pack_cons, nlen_app, nlen_cons. lia. }
@@ -499,9 +500,9 @@ Proof.
       assert (En2 : pfx ++ (l :: mid ++ m') = cpre ++ cz) by (rewrite <- Hcz, En; reflexivity).
       destruct (suffix_cases pfx (l :: mid ++ m') cpre cz En2) as [[w Hw]|[w [Hw Hwne]]].
       * (* cz is a suffix of the current name; not equal, hence of its parent *)
-        destruct w as [|a w]; [cbn in Hw; symmetry in Hw; contradiction|].
-        cbn [app] in Hw. inversion Hw; subst a.
-        assert (Lc : nlen (pack cz) <= nlen (pack (mid ++ m'))) by (rewrite H1, nlen_pack_app; lia).
+        destruct w as [|a w]; [cbn [app] in Hw; contradiction|].
+        cbn [app] in Hw. injection Hw as _ Hw2.
+        assert (Lc : nlen (pack cz) <= nlen (pack (mid ++ m'))) by (rewrite Hw2, nlen_pack_app; lia).
         assert (X : (nlen (pack cz) <=? nlen (pack (l :: mid ++ m'))) = true) by lia.
         assert (Y : (nlen (pack cz) <=? nlen (pack (mid ++ m'))) = true) by lia.
         rewrite X, Y. reflexivity.
@@ -514,7 +515,7 @@ Proof.
         rewrite X, Y, !andb_false_r. reflexivity.
 Qed.
 
-Lemma scan1_fa : forall m loc fs wild last, name_ok m -> length loc = 2%nat ->
+Lemma scan1_fa : forall m loc (fs : fa_state) wild last, name_ok m -> length loc = 2%nat ->
   scan1 st2 (fa_parse qname qtype) (bkey (rev m) loc) (fs, wild, last) =
   ((fst (for_each_v1 b st1 (loc ++ pack m) (fa_cb qname qtype wild) fs), wild, last), false).
 Proof.
@@ -523,7 +524,7 @@ Proof.
   destruct (iter_rows (fa_cb qname qtype wild) (get st1 (loc ++ pack m)) fs) as [s' stt]. cbn [fst snd] in *. subst stt. reflexivity.
 Qed.
 
-Lemma scan2_fa : forall m fs wild last, name_ok m ->
+Lemma scan2_fa : forall m (fs : fa_state) wild last, name_ok m ->
   scan2 st2 fa2_state (fa_parse qname qtype) L (rev m) (fs, wild, last) = ((scan_fa m wild fs, wild, last), false).
 Proof.
   intros m fs wild last Hm. unfold scan2, scan_fa. destruct (is_loc0 L).
@@ -531,7 +532,7 @@ Proof.
   - rewrite scan1_fa by auto. rewrite scan1_fa by auto. reflexivity.
 Qed.
 
-Lemma fa_pre_eval : forall pfx midl m fs wild, n = pfx ++ midl ++ m ->
+Lemma fa_pre_eval : forall pfx midl m (fs : fa_state) wild, n = pfx ++ midl ++ m ->
   fa_pre ctrl (fs, wild, nlen (body (rev (midl ++ m))) + 1) RV (nlen (body (rev m)) + 1) =
   Val (if (nlen (body (rev m)) + 1 <? nlen ctrl) || negb (forallb wildsafe midl)
        then ((fs, wild, nlen (body (rev (midl ++ m))) + 1), false)
@@ -552,7 +553,7 @@ Proof.
     rewrite rev_length in X. rewrite !app_length. unfold nlen in X. lia.
 Qed.
 
-Lemma fa_sim : forall k m, length m = k -> forall pfx midl f kbuf klen wild s,
+Lemma fa_sim : forall k m, length m = k -> forall pfx midl f kbuf klen wild (s : fa_state),
   n = pfx ++ midl ++ m -> snd s = false -> (length m < f)%nat -> buf_ok kbuf klen (body (rev m)) ->
   exists w' l',
     find_loop_pure st2 fa2_state (fa_parse qname qtype) (fa_pre ctrl) fa_post f RV L kbuf klen (nlen (body (rev m)) + 1)
@@ -576,7 +577,7 @@ Proof.
     + set (s2 := scan_fa m wild s) in *.
       apply orb_false_elim in Estop as [Ec _].
       destruct E2 as [[A1 A2]|(mid & m' & B1 & B2 & B3 & B4 & B5)].
-      * rewrite A1. exists true, (nlen (body (rev m)) + 1). do 2 f_equal.
+      * rewrite A1. exists true, (nlen (body (rev m)) + 1). do 3 f_equal.
         destruct (bytes_eqb (pack m) ctrl); [reflexivity|].
         destruct m as [|l p]; [reflexivity|]. destruct (negb (wildsafe l)); [reflexivity|].
         inversion Hm; subst. symmetry. apply walk_fa_all_keyless; auto.
@@ -589,7 +590,7 @@ Proof.
         assert (Elast : nlen (body (rev m)) + 1 = nlen (body (rev ((l :: mid') ++ m'))) + 1) by (rewrite B1; reflexivity).
         rewrite Elast.
         destruct (IHk (length m') ltac:(lia) m' eq_refl (pfx ++ midl) (l :: mid') f kb3 _ true s2 En2 Efound ltac:(lia) B4) as (w' & l' & I).
-        rewrite <- Elast in I. rewrite <- Elast. rewrite I. exists w', l'. do 2 f_equal.
+        rewrite <- Elast in I. rewrite <- Elast. rewrite I. exists w', l'. do 3 f_equal.
         (* the v1 side: from m across the stretch to m' *)
         pose proof (hits_iff (l :: mid') m' (pfx ++ midl) En2) as Hh.
         rewrite <- B1 in Hh. cbn [hits] in Hh. rewrite <- B1 in Hh.
